@@ -99,9 +99,13 @@ def canon_text(t, text):
     return text
 
 
+APP_INTS = set()      # ints the application of the current case put into lists itself (they read back as what it put there)
+
+
 def canon_read(v, t=None):
     if isinstance(v, list):
-        return ['l', [x if isinstance(x, str) else ('<%s>%s' % (type(x).__name__, x)) for x in v], type(v).__name__.lstrip('_')]
+        return ['l', [x if isinstance(x, str) else str(x) if (type(x) is int and x in APP_INTS) else ('<%s>%s' % (type(x).__name__, x)) for x in v],
+                type(v).__name__.lstrip('_')]
     if isinstance(v, bool):
         return ['s', '1' if v else '0']
     if isinstance(v, float):
@@ -210,6 +214,12 @@ class Impl:
 
 
 def run_impl(case):
+    APP_INTS.clear()
+    for op in case['ops']:
+        for a in op[2:]:
+            for x in (a if isinstance(a, list) else [a]):
+                if type(x) is int and op[0] in ('assign', 'lop') and isinstance(op[2], (list, str)):
+                    APP_INTS.add(x)
     im = Impl(case)
     trace = [im.snapshot()]
     for op in case['ops']:
